@@ -537,6 +537,9 @@ def _restore_closure_once(tree, rel, b, known, stats):
     # a factory that *returns* the closure is not the closure (helper inlining undoes it)
     if any(isinstance(n_, FN) and similarity(bnode, n_) >= sim for n_ in ast.walk(M) if n_ is not M):
       continue
+    # the reference closure is still there under another name (a nested function of the caller about as similar): the new helper is just a helper
+    if any(isinstance(n_, FN) and n_ is not G and similarity(bnode, n_) >= min(sim, 0.62) - 0.1 for n_ in ast.walk(G)):
+      continue
     pq = fq.rsplit('.', 1)[0]
     P = G if pq == gq else have.get(pq)
     if P is None:
@@ -737,7 +740,11 @@ def _stmt_key(st, names):
   if isinstance(st, (ast.If, ast.While)):
     return type(st).__name__ + ':' + ast.unparse(_Abs(names).visit(copy.deepcopy(st.test)))
   if isinstance(st, (ast.For, ast.AsyncFor)):
-    return 'For:' + ast.unparse(_Abs(names).visit(copy.deepcopy(st.iter)))
+    it = copy.deepcopy(st.iter)
+    if (isinstance(it, ast.Call) and isinstance(it.func, ast.Name) and it.func.id == 'range' and len(it.args) == 2 and not it.keywords
+        and isinstance(it.args[0], ast.Constant) and it.args[0].value == 0):
+      it.args = it.args[1:]        # range(0, n) is range(n)
+    return 'For:' + ast.unparse(_Abs(names).visit(it))
   if isinstance(st, (ast.With, ast.AsyncWith)):
     return 'With:' + ','.join(ast.unparse(_Abs(names).visit(copy.deepcopy(i.context_expr))) for i in st.items)
   if isinstance(st, ast.Try):
@@ -1454,6 +1461,37 @@ def _fold_marked(tree):
           return _mark(ast.copy_location(ast.Constant(value=v), node))
       return node
   F().visit(tree)
+
+
+def split_constant_tuples(trees, stats):
+  """`A, B, C = range(3)` / `A, B = 1, 2` at module or class level: one plain constant assignment per name (what inline_new_constants reads)."""
+  def walk(body):
+    i = 0
+    while i < len(body):
+      st = body[i]
+      if isinstance(st, ast.ClassDef):
+        walk(st.body)
+      elif (isinstance(st, ast.Assign) and len(st.targets) == 1 and isinstance(st.targets[0], (ast.Tuple, ast.List)) and all(isinstance(e, ast.Name) for e in st.targets[0].elts)):
+        names = [e.id for e in st.targets[0].elts]
+        vals = None
+        v = st.value
+        if (isinstance(v, ast.Call) and isinstance(v.func, ast.Name) and v.func.id == 'range' and not v.keywords and 1 <= len(v.args) <= 2
+            and all(isinstance(a, ast.Constant) and isinstance(a.value, int) for a in v.args)):
+          r = list(range(*[a.value for a in v.args]))
+          if len(r) == len(names):
+            vals = [ast.Constant(value=x) for x in r]
+        elif isinstance(v, (ast.Tuple, ast.List)) and len(v.elts) == len(names) and all(_const_expr(e) for e in v.elts):
+          vals = list(v.elts)
+        if vals is not None and len(set(names)) == len(names):
+          new = [ast.copy_location(ast.Assign(targets=[ast.Name(id=nm, ctx=ast.Store())], value=val), st) for nm, val in zip(names, vals)]
+          body[i:i + 1] = new
+          stats['constant_tuples_split'] = stats.get('constant_tuples_split', 0) + 1
+          i += len(new)
+          continue
+      i += 1
+  for tree in trees.values():
+    walk(tree.body)
+    ast.fix_missing_locations(tree)
 
 
 def inline_new_constants(trees, stats):
@@ -3101,6 +3139,7 @@ def restore_package(trees, stats):
   except Exception as e:
     stats['namedtuple_error'] = repr(e)
   try:
+    split_constant_tuples(trees, stats)
     for _ in range(2):       # a constant defined from another new constant
       inline_new_constants(trees, stats)
   except Exception as e:
